@@ -2,7 +2,8 @@
   C03 — property theorems: a Stream behaves as a lazy sequence under any history.
   Only statements of the property, non-vacuity examples and the audit live here; the
   lemmas are in `ALV.Lemmas.C03` (next refines head/tail), `C03Step` (relation, tee hubs),
-  `C03Refine` (one lemma per method).
+  `C03Refine` (one lemma per method); for periodic sources `C03PSeq` (eventually periodic sequences
+  up to re-folding), `C03PNext` (a terminating next returns the head), `C03PStep`, `C03PRun`.
 
   Reading guide.  `run f st ops` is the heap-of-iterators model (fuel `f`: `none` = Python
   would not terminate); `specRun sp ops` is the immutable-list specification.  `den E it`
@@ -12,6 +13,8 @@
 import ALV.Lemmas.C03Run
 import ALV.Lemmas.C03Hist
 import ALV.Lemmas.C03Periodic
+import ALV.Lemmas.C03PRun
+import ALV.Lemmas.C03PTotalRun
 import ALV.Lemmas.C03Counts
 import ALV.Common.Audit
 
@@ -281,13 +284,105 @@ theorem hist_ref_snapshot (f : Nat) (s : HSt α) (i j n : Nat) (xs : List α) (h
     hstep f s (.thubRef j n) = hstep f s (.op (.thub (.list xs) n)) := by
   simp [hstep, hj]
 
--- PENDING: the refinement of whole histories over periodic sources (every source, finite or
--- not): whenever the model terminates at every step, its observations are those of the list
--- model.  Today this is covered by the tie (histories with `Stream(1,2,3)` / `Stream(5)` sources,
--- compared with model and spec on every run) and by `periodic_take_partial`.
-def periodic_refines_PENDING (α : Type) : Prop :=
-  ∀ (ops : List (Op α)) (f : Nat), (∀ o, o ∈ run f (St.empty : St α) ops → o ≠ none) →
-    run f (St.empty : St α) ops = specRun [] ops
+/-! ### every kind of source: finite lists, `Stream(1, 2, 3)` (cycle), `Stream(5)` (repeat)
+
+For endless sources "enough fuel always exists" is false (Python itself never returns from
+`list(Stream(1, 2))`, `Stream(1, 2).take(inf)` or from a `filter` that rejects a whole period), so
+the refinement is stated twice: from the model's side — *whenever the model returns* (`step f … =
+some`, a run without `none`), for whatever fuel `f` (`periodic_refines`) — and from the list model's
+side — for the histories on which Python returns (`SpecLive`), enough fuel exists
+(`periodic_total`).  `PRel false E st sp`: every model object denotes — as an
+eventually periodic sequence `pden E it : LSeq`, up to re-folding of the period (`LSeq.Eqv`) — the
+specification object with the same pool index; every tee hub still distributes its sequence. -/
+
+/-- **C03.6a (the equivalence used by the relation is sound)** two representations related by
+re-folding have the same first `n` items for every `n`, are both endless or both finite, and a
+finite one is related only to itself. -/
+theorem seq_eqv_sound {s t : LSeq α} (h : LSeq.Eqv s t) :
+    (∀ n, s.take n = t.take n) ∧ s.endless = t.endless ∧ (s.per = [] → s = t) :=
+  ⟨h.take, h.endless, h.fin⟩
+
+/-- **C03.6b (step, every source)** every method, on every reachable state over finite and periodic
+sources: whenever the model's step returns, the list model makes the same step — same return value
+/ exception — and the resulting states are related again.  (And so: where the list model says "never
+returns" — `list()` / `take(inf)` of an endless sequence — the model does not return either.) -/
+theorem periodic_step_refines {E : List (LSeq α)} {st : St α} {sp : SPool α} (R : PRel false E st sp) (op : Op α)
+    {f : Nat} {st' : St α} {o : Obs α} (h : step f st op = some (st', o)) :
+    ∃ E' sp', specStep sp op = some (sp', o) ∧ PRel false E' st' sp' :=
+  step_sound R op (opLive_false sp op) f st' o h
+
+/-- **C03.6c (`take` / `peek` / `next` / `list()` on any iterator)** whenever `Stream.take` returns —
+any count, any iterator built from finite and periodic leaves, tee outputs, map / filter / chain /
+skip / limit wrappers — it returns what `specTake` returns on (any representation of) the sequence the
+iterator denotes, and leaves an iterator denoting the rest. -/
+theorem periodic_take_refines {E : List (LSeq α)} {f : Nat} {h : Heap α} {it : It α} {c : Cnt}
+    {h' : Heap α} {it' : It α} {o : Obs α} (hr : takeIt f h it c = some (h', it', o)) (hH : PHeapOK false E h)
+    (hW : WF false E h it) {s : LSeq α} (hs : LSeq.Eqv s (pden E it)) :
+    ∃ s', specTake s c = some (s', o) ∧ LSeq.Eqv s' (pden E it') ∧ PHeapOK false E h' ∧ WF false E h' it' := by
+  obtain ⟨s', a, b, c', d, _⟩ := takeIt_sound hr hH hW hs
+  exact ⟨s', a, b, c', d⟩
+
+/-- **C03.6 (histories over finite and periodic sources)** for every history, of any length, over a
+pool whose sources may be finite lists or endless periodic streams, starting from nothing: whenever
+the model terminates at every step (there is a fuel `f` for which no step runs out of fuel — no
+request that Python itself would never finish), the whole list of observations (return values and
+exceptions) is the one of the list model. -/
+theorem periodic_refines (ops : List (Op α)) (f : Nat)
+    (hterm : ∀ o, o ∈ run f (St.empty : St α) ops → o ≠ none) :
+    run f (St.empty : St α) ops = specRun [] ops :=
+  run_sound_from prel_empty f ops hterm
+
+/-- **C03.6d (every history, every fuel)** without any side condition: each observation the model
+makes before it runs out of fuel is the observation of the list model at the same step. -/
+theorem periodic_refines_prefix (ops : List (Op α)) (f k : Nat) (o : Obs α)
+    (hk : (run f (St.empty : St α) ops)[k]? = some (some o)) :
+    (specRun ([] : SPool α) ops)[k]? = some (some o) :=
+  run_sound_prefix prel_empty f ops k o hk
+
+/-- **C03.6e (the fuel is irrelevant once it suffices)** two fuels for which the model terminates at
+every step give the same observations. -/
+theorem periodic_fuel_irrelevant (ops : List (Op α)) (f f' : Nat)
+    (h : ∀ o, o ∈ run f (St.empty : St α) ops → o ≠ none)
+    (h' : ∀ o, o ∈ run f' (St.empty : St α) ops → o ≠ none) :
+    run f (St.empty : St α) ops = run f' (St.empty : St α) ops :=
+  (periodic_refines ops f h).trans (periodic_refines ops f' h').symm
+
+/-- **C03.6f (finite and periodic sources: enough fuel exists)** a sufficient condition for every
+call to return, stated on the list model alone (`SpecLive`, decidable: `spec_live_check`): the list
+model never answers "never returns" (`list()` / `take(inf)` of an endless sequence) and no `filter` is
+applied to an endless sequence whose whole period it rejects.  Then, for every such history of any
+length over finite and periodic sources, with enough fuel the model terminates at every step and the
+whole list of observations is the one of the list model (and none of them is "never returns").
+(`run_refines` states the same for finite sources, where no side condition is needed.) -/
+theorem periodic_total (ops : List (Op α)) (hl : SpecLive ([] : SPool α) ops) :
+    (∃ F, ∀ f, F ≤ f → run f (St.empty : St α) ops = specRun [] ops) ∧
+      ∀ o, o ∈ specRun ([] : SPool α) ops → o ≠ none :=
+  ⟨run_total_from prel_empty ops hl, specLive_no_none ops [] hl⟩
+
+/-- **C03.6g** the condition of `periodic_total` is decided by the executable `specLiveB`. -/
+theorem spec_live_check (sp : SPool α) (ops : List (Op α)) (h : specLiveB sp ops = true) :
+    SpecLive sp ops := specLiveB_sound ops sp h
+
+/-- **C03.6h (`take` returns)** on every iterator built from finite and periodic leaves, tee outputs
+and map / filter / chain / skip / limit wrappers whose filters all sit over sequences they hit
+(`WF true`), `Stream.take` returns with enough fuel for every count — `take(inf)` / `list()` when the
+sequence is finite.  (What it returns: `periodic_take_refines`.) -/
+theorem periodic_take_total {E : List (LSeq α)} {h : Heap α} {it : It α} (hH : PHeapOK true E h)
+    (hO : WF true E h it) (c : Cnt) (hfin : takeMode c = .all → (pden E it).per = []) :
+    ∃ F h' it' o, ∀ f, F ≤ f → takeIt f h it c = some (h', it', o) := takeIt_total hH hO c hfin
+
+/-- **C03.7f (the caller's containers, finite and periodic sources: enough fuel exists)** -/
+theorem hist_total (hops : List (HOp α)) (hl : HSpecLive (⟨[], []⟩ : HSp α) hops) :
+    ∃ F, ∀ f, F ≤ f → hrun f (HSt.empty : HSt α) hops = hspecRun ⟨[], []⟩ hops :=
+  hrun_total_from prel_empty [] hops hl
+
+/-- **C03.7e (histories with the caller's containers, every source)** `hist_refines` over finite
+and periodic sources: whenever the model terminates at every step, every observation and the final
+contents of every container of the caller are those of the list model. -/
+theorem hist_refines_periodic (hops : List (HOp α)) (f : Nat)
+    (hterm : ∀ o, o ∈ (hrun f (HSt.empty : HSt α) hops).1 → o ≠ none) :
+    hrun f (HSt.empty : HSt α) hops = hspecRun ⟨[], []⟩ hops :=
+  hrun_sound_from prel_empty f [] hops hterm
 
 /-- non-vacuity: a concrete history with a copy consumed in the other order, a short take -/
 example : run 10 (St.empty : St Int)
@@ -314,6 +409,50 @@ example : run 10 (St.empty : St Int) [.new (.cyc [1, 2, 3]), .take 0 (.int 5), .
 example : specRun ([] : SPool Int) [.new (.cyc [1, 2, 3]), .take 0 (.int 5), .skip 0 (.int 2), .take 0 (.int 2)]
     = [some (.new 0), some (.items [1, 2, 3, 1, 2]), some .unit, some (.items [2, 3])] := by decide
 example : (Op.new (.list [1, 2, 3]) : Op Int).Fin ∧ (Op.thub (.obj 0) 2 : Op Int).Fin := ⟨trivial, trivial⟩
+/-- periodic sources in a whole history (hypothesis and conclusion of `periodic_refines`): a periodic
+    Stream, its copy moved into a thub with 2 uses, float / None / negative counts (`rint(2.5) = 3`,
+    `round(1.5) = 2`, `round(3.5) = 4`), peek on the stream and on the hub, skip, limit, append of a
+    list and of a `repeat`, a filter over a period, the third hub request failing -/
+example :
+    let ops : List (Op Int) :=
+      [.new (.cyc [1, 2, 3]), .copy 0, .thub (.obj 1) 2, .take 0 (.flt (5/2)), .peek 0 .none,
+       .skip 0 (.flt (3/2)), .take 0 .none, .new (.obj 2), .limit 3 (.flt (7/2)), .append 3 (.list [9]),
+       .drain 3, .peek 2 (.int 2), .append 0 (.const 7), .take 0 (.int 4), .take 1 .none, .new (.obj 2),
+       .new (.obj 2), .take 4 (.int (-2)), .filter 4 (fun x => x != 2), .take 4 (.int 3), .peek 4 (.flt (3/2))]
+    let obs : List (Option (Obs Int)) :=
+      [some (.new 0), some (.new 1), some (.new 2), some (.items [1, 2, 3]), some (.item 1),
+       some .unit, some (.item 3), some (.new 3), some .unit, some .unit,
+       some (.items [1, 2, 3, 1, 9]), some (.items [1, 2]), some .unit, some (.items [1, 2, 3, 1]),
+       some (.err "noobj"), some (.new 4), some (.err "IndexError"), some (.items []), some .unit,
+       some (.items [1, 3, 1]), some (.items [3, 1])]
+    (∀ o, o ∈ run 12 (St.empty : St Int) ops → o ≠ none) ∧ run 12 (St.empty : St Int) ops = obs ∧
+      specRun ([] : SPool Int) ops = obs ∧ specLiveB [] ops = true := by decide +kernel
+/-- the side condition is needed: where Python never returns the model runs out of fuel (`none`);
+    the list model says "never returns" for `list()` of an endless sequence, and treats a filter that
+    rejects the whole period as an empty sequence (outside the property) -/
+example : run 9 (St.empty : St Int) [.new (.cyc [1, 2]), .drain 0] = [some (.new 0), none]
+    ∧ specRun ([] : SPool Int) [.new (.cyc [1, 2]), .drain 0] = [some (.new 0), none]
+    ∧ run 9 (St.empty : St Int) [.new (.const 1), .filter 0 (fun x => x != 1), .take 0 .none]
+        = [some (.new 0), some .unit, none]
+    ∧ specRun ([] : SPool Int) [.new (.const 1), .filter 0 (fun x => x != 1), .take 0 .none]
+        = [some (.new 0), some .unit, some (.err "StopIteration")]
+    ∧ specLiveB ([] : SPool Int) [.new (.cyc [1, 2]), .drain 0] = false
+    ∧ specLiveB ([] : SPool Int) [.new (.const 1), .filter 0 (fun x => x != 1), .take 0 .none] = false
+    ∧ specLiveB ([] : SPool Int) [.new (.cyc [1, 2]), .filter 0 (fun x => x != 1), .take 0 (.int 3)] = true
+    := by decide +kernel
+/-- `hist` over a periodic source: the caller reverses what `take` returned and appends it again -/
+example : hrun 9 (HSt.empty : HSt Int)
+    [.op (.new (.cyc [1, 2])), .op (.take 0 (.int 2)), .edit 0 .reverse, .op (.limit 0 (.int 2)), .appendRef 0 0,
+     .op (.drain 0)]
+    = ([some (.new 0), some (.items [1, 2]), some .unit, some .unit, some .unit, some (.items [1, 2, 2, 1])],
+       [[2, 1], [1, 2, 2, 1]])
+    ∧ hspecRun (⟨[], []⟩ : HSp Int)
+    [.op (.new (.cyc [1, 2])), .op (.take 0 (.int 2)), .edit 0 .reverse, .op (.limit 0 (.int 2)), .appendRef 0 0,
+     .op (.drain 0)]
+    = ([some (.new 0), some (.items [1, 2]), some .unit, some .unit, some .unit, some (.items [1, 2, 2, 1])],
+       [[2, 1], [1, 2, 2, 1]]) := by decide +kernel
+/-- two representations of `1 2 3 1 2 3 …` are related by re-folding -/
+example : LSeq.Eqv (LSeq.mk [] [1, 2, 3]) (LSeq.mk [1] [2, 3, 1]) := .rot [] 1 [2, 3]
 /-- `hist`: the caller reverses what `peek` returned, clears what `take` returned, passes the
     reversed list in twice; model and list model agree, the lists at the end are the caller's -/
 example : hrun 10 (HSt.empty : HSt Int)
